@@ -1163,7 +1163,7 @@ fn lagrange_double_mul_basis<F: Nf>(ctx: &mut Ctx, item: &mut u64, lb: usize, lb
 fn lagrange_double_mul_sampled<F: Nf>(ctx: &mut Ctx, item: &mut u64, lfrom: usize, lmax: usize) {
     for logn in lfrom..=lmax.min(19) {
         let n = 1usize << logn;
-        let reps = ctx.budget(2, 4);
+        let reps = if logn > 14 { ctx.budget(1, 4) } else { ctx.budget(2, 4) };
         for rep in 0..reps {
             *item += 1;
             if !ctx.mine(*item) {
@@ -1589,12 +1589,12 @@ fn run_field<F: Nf>(ctx: &mut Ctx, item: &mut u64) {
     let ldense_tf = ctx.budget(16, 20) as usize;
     let lmax_tf = 20usize;
     let lb_eval = ctx.budget(8, 9) as usize;
-    let lmax_eval = ctx.budget(14, 20) as usize;
+    let lmax_eval = ctx.budget(17, 20) as usize;
     let lb_ext = ctx.budget(7, 8) as usize;
-    let lmax_ext = ctx.budget(10, 12) as usize;
+    let lmax_ext = ctx.budget(11, 12) as usize;
     let lb_dbl = ctx.budget(9, 10) as usize;
     let lb_mul = ctx.budget(7, 9) as usize;
-    let lmax_dbl = ctx.budget(14, 19) as usize;
+    let lmax_dbl = 19usize; // every size in both tiers: integer-width limits (n^2, 2n) bite only at the top sizes
 
     let prof = std::env::var("C10_PROFILE").is_ok();
     let mut t = std::time::Instant::now();
